@@ -263,9 +263,13 @@ def anyNode : Raw := if specialIs "Any" "const_true" then .ok true else .raisedO
 
 def unionName : USpell → String | .union => "Union" | .optional => "Optional" | .pipe => "nionType"
 
+def unionCheckerName : USpell → String | .optional => "Optional" | _ => "Union"
+/-- `X | Y` goes through the `types.UnionType` branch, the typing spellings through the special checker registered by name -/
+def unionDispatchOk (sp : USpell) : Bool := sp == .pipe || specialIs (unionCheckerName sp) "_instancecheck_union"
+
 def unionNode (sp : USpell) (n : Nat) (members : Raw) : Raw :=
   if !requiredArgsOk (unionName sp) n then .raisedPed else
-  if sp != .pipe && !specialIs (match sp with | .optional => "Optional" | _ => "Union") "_instancecheck_union" then .raisedOther else
+  if !unionDispatchOk sp then .raisedOther else
   members
 
 def literalNode (ls : List Lit) (v : Val) : Raw :=
